@@ -273,3 +273,279 @@ Proof.
   eexists. split; [vm_compute; reflexivity|]. split; [vm_compute; reflexivity|].
   eexists. split; [vm_compute; reflexivity|]. vm_compute. reflexivity.
 Qed.
+
+(* ====================================================================== *)
+(* 6. The tie to the source TEXT                                           *)
+(* ====================================================================== *)
+(* Stats/Gen_SimStats.v is regenerated on every run by
+   translator/py2gallina_simstats.py from the method bodies of the EventBased*
+   and Sim* classes in src/pydsol/core/statistics.py, of the dictionary methods
+   of DSOLModel in model.py and of the statements of Simulator.initialize about
+   the model in simulator.py of the tree under test (Python `ast`, fail-closed;
+   method resolution from the class statements; one definition per concrete
+   class and method).  A generated object [gst N S] carries the attributes of
+   the ordinary statistic (S = cstate / tstate / wstate / tsstate), the
+   subscriber's pending reactions, everything delivered, "raised" and "out of
+   budget"; [emb inj x regs] is the model state [pst] it stands for and [er]
+   erases the model's ghost log of operations, which the source does not have.
+   Stats/SimGenAgree.v proves every generated definition equal to the
+   hand-written model function the theorems above are about -- for all states,
+   arguments, subscriber programs, nesting budgets and arithmetic instances --
+   and that [stat_run] is these methods composed over the listener tables the
+   constructors build.  With these equalities every theorem above is a theorem
+   about what the source says now; the main ones are restated below.  A change
+   of the sources that changes the meaning of a method makes SimGenAgree.v fail
+   to compile: the check then reports the broken tie.
+
+   Premises of the whole-log statements: [chan_et] gives every channel of the
+   model's producer its event type, different channels different types, none of
+   them WARMUP / END_REPLICATION (otherwise a statistic would take the
+   simulator's events for data); the declared keys are distinct (a duplicate
+   key makes construct_model raise, outside the model).                      *)
+From PV Require Import Stats.Gen_SimStats Stats.SimGenAgree.
+
+(* (a) publishing: register first, then publish, each payload the getter at that
+       moment; (b) the dispatch of notify on the event type -- method by method  *)
+Theorem C11_generated_publishing_is_the_proved_model : forall N : Num,
+  (* class EventBasedCounter *)
+  (forall (E : genv N cstate) re p x r, react_rel N cstate SC re (e_react E) -> g_raised x = false ->
+     er (fire_all N (e_lsub E) re p (emb SC x r)) = emb SC (gen_EventBasedCounter__fire_events N E x (p_c p)) []) /\
+  (forall (E : genv N cstate) re tm ext p x r, react_rel N cstate SC re (e_react E) ->
+     er (reg_body N (e_lsub E) tm re ext (emb SC x r) p) = emb SC (gen_EventBasedCounter_register N E x (p_c p)) []) /\
+  (forall (E : genv N cstate) fuel tm x r,
+     react_rel N cstate SC (fun y q => preg N fuel (e_lsub E) tm false y q) (e_react E) -> g_raised x = false ->
+     er (pinit N fuel (e_lsub E) tm (emb SC x r)) = emb SC (gen_EventBasedCounter_initialize N E x) []) /\
+  (forall (E : genv N cstate) re tm ext e x r, react_rel N cstate SC re (e_react E) ->
+     er (eb_notify N KCounter (e_lsub E) tm re ext (emb SC x r) e) = emb SC (gen_EventBasedCounter_notify N E x e) []) /\
+  (* class SimCounter *)
+  (forall (E : genv N cstate) re p x r, react_rel N cstate SC re (e_react E) -> g_raised x = false ->
+     er (fire_all N (e_lsub E) re p (emb SC x r)) = emb SC (gen_SimCounter__fire_events N E x (p_c p)) []) /\
+  (forall (E : genv N cstate) re tm ext p x r, react_rel N cstate SC re (e_react E) ->
+     er (reg_body N (e_lsub E) tm re ext (emb SC x r) p) = emb SC (gen_SimCounter_register N E x (p_c p)) []) /\
+  (forall (E : genv N cstate) fuel tm x r,
+     react_rel N cstate SC (fun y q => preg N fuel (e_lsub E) tm false y q) (e_react E) -> g_raised x = false ->
+     er (pinit N fuel (e_lsub E) tm (emb SC x r)) = emb SC (gen_SimCounter_initialize N E x) []) /\
+  (forall (E : genv N cstate) re tm ext e x r, react_rel N cstate SC re (e_react E) ->
+     er (eb_notify N KCounter (e_lsub E) tm re ext (emb SC x r) e) = emb SC (gen_SimCounter_super_EventBasedCounter_notify N E x e) []) /\
+  (forall (E : genv N cstate) f e x r,
+     react_rel N cstate SC (react N f (e_lsub E) (e_tm E)) (e_react E) -> g_raised x = false ->
+     er (snotify N KCounter f (e_lsub E) (e_types E) (e_tm E) (emb SC x r) e) = emb SC (gen_SimCounter_notify N E x e) []) /\
+  (* class EventBasedTally *)
+  (forall (E : genv N (tstate N)) re p x r, react_rel N (tstate N) ST re (e_react E) -> g_raised x = false ->
+     er (fire_all N (e_lsub E) re p (emb ST x r)) = emb ST (gen_EventBasedTally__fire_events N E x (p_v p)) []) /\
+  (forall (E : genv N (tstate N)) re tm ext p x r, react_rel N (tstate N) ST re (e_react E) ->
+     er (reg_body N (e_lsub E) tm re ext (emb ST x r) p) = emb ST (gen_EventBasedTally_register N E x (p_v p)) []) /\
+  (forall (E : genv N (tstate N)) fuel tm x r,
+     react_rel N (tstate N) ST (fun y q => preg N fuel (e_lsub E) tm false y q) (e_react E) -> g_raised x = false ->
+     er (pinit N fuel (e_lsub E) tm (emb ST x r)) = emb ST (gen_EventBasedTally_initialize N E x) []) /\
+  (forall (E : genv N (tstate N)) re tm ext e x r, react_rel N (tstate N) ST re (e_react E) ->
+     er (eb_notify N KTally (e_lsub E) tm re ext (emb ST x r) e) = emb ST (gen_EventBasedTally_notify N E x e) []) /\
+  (* class SimTally *)
+  (forall (E : genv N (tstate N)) re p x r, react_rel N (tstate N) ST re (e_react E) -> g_raised x = false ->
+     er (fire_all N (e_lsub E) re p (emb ST x r)) = emb ST (gen_SimTally__fire_events N E x (p_v p)) []) /\
+  (forall (E : genv N (tstate N)) re tm ext p x r, react_rel N (tstate N) ST re (e_react E) ->
+     er (reg_body N (e_lsub E) tm re ext (emb ST x r) p) = emb ST (gen_SimTally_register N E x (p_v p)) []) /\
+  (forall (E : genv N (tstate N)) fuel tm x r,
+     react_rel N (tstate N) ST (fun y q => preg N fuel (e_lsub E) tm false y q) (e_react E) -> g_raised x = false ->
+     er (pinit N fuel (e_lsub E) tm (emb ST x r)) = emb ST (gen_SimTally_initialize N E x) []) /\
+  (forall (E : genv N (tstate N)) re tm ext e x r, react_rel N (tstate N) ST re (e_react E) ->
+     er (eb_notify N KTally (e_lsub E) tm re ext (emb ST x r) e) = emb ST (gen_SimTally_super_EventBasedTally_notify N E x e) []) /\
+  (forall (E : genv N (tstate N)) f e x r,
+     react_rel N (tstate N) ST (react N f (e_lsub E) (e_tm E)) (e_react E) -> g_raised x = false ->
+     er (snotify N KTally f (e_lsub E) (e_types E) (e_tm E) (emb ST x r) e) = emb ST (gen_SimTally_notify N E x e) []) /\
+  (* class EventBasedWeightedTally *)
+  (forall (E : genv N (wstate N)) re p x r, react_rel N (wstate N) SW re (e_react E) -> g_raised x = false ->
+     er (fire_all N (e_lsub E) re p (emb SW x r)) = emb SW (gen_EventBasedWeightedTally__fire_events N E x (p_v p)) []) /\
+  (forall (E : genv N (wstate N)) re tm ext p x r, react_rel N (wstate N) SW re (e_react E) ->
+     er (reg_body N (e_lsub E) tm re ext (emb SW x r) p) = emb SW (gen_EventBasedWeightedTally_register N E x (p_w p) (p_v p)) []) /\
+  (forall (E : genv N (wstate N)) fuel tm x r,
+     react_rel N (wstate N) SW (fun y q => preg N fuel (e_lsub E) tm false y q) (e_react E) -> g_raised x = false ->
+     er (pinit N fuel (e_lsub E) tm (emb SW x r)) = emb SW (gen_EventBasedWeightedTally_initialize N E x) []) /\
+  (forall (E : genv N (wstate N)) re tm ext e x r, react_rel N (wstate N) SW re (e_react E) ->
+     er (eb_notify N KWeighted (e_lsub E) tm re ext (emb SW x r) e) = emb SW (gen_EventBasedWeightedTally_notify N E x e) []) /\
+  (* class SimWeightedTally *)
+  (forall (E : genv N (wstate N)) re p x r, react_rel N (wstate N) SW re (e_react E) -> g_raised x = false ->
+     er (fire_all N (e_lsub E) re p (emb SW x r)) = emb SW (gen_SimWeightedTally__fire_events N E x (p_v p)) []) /\
+  (forall (E : genv N (wstate N)) re tm ext p x r, react_rel N (wstate N) SW re (e_react E) ->
+     er (reg_body N (e_lsub E) tm re ext (emb SW x r) p) = emb SW (gen_SimWeightedTally_register N E x (p_w p) (p_v p)) []) /\
+  (forall (E : genv N (wstate N)) fuel tm x r,
+     react_rel N (wstate N) SW (fun y q => preg N fuel (e_lsub E) tm false y q) (e_react E) -> g_raised x = false ->
+     er (pinit N fuel (e_lsub E) tm (emb SW x r)) = emb SW (gen_SimWeightedTally_initialize N E x) []) /\
+  (forall (E : genv N (wstate N)) re tm ext e x r, react_rel N (wstate N) SW re (e_react E) ->
+     er (eb_notify N KWeighted (e_lsub E) tm re ext (emb SW x r) e) = emb SW (gen_SimWeightedTally_super_EventBasedWeightedTally_notify N E x e) []) /\
+  (forall (E : genv N (wstate N)) f e x r,
+     react_rel N (wstate N) SW (react N f (e_lsub E) (e_tm E)) (e_react E) -> g_raised x = false ->
+     er (snotify N KWeighted f (e_lsub E) (e_types E) (e_tm E) (emb SW x r) e) = emb SW (gen_SimWeightedTally_notify N E x e) []) /\
+  (* class EventBasedTimestampWeightedTally *)
+  (forall (E : genv N (tsstate N)) re p ts x r, react_rel N (tsstate N) SP re (e_react E) -> g_raised x = false ->
+     er (fire_all N (e_lsub E) re p (emb SP x r)) = emb SP (gen_EventBasedTimestampWeightedTally__fire_events N E x ts (p_v p)) []) /\
+  (forall (E : genv N (tsstate N)) re tm ext p x r, react_rel N (tsstate N) SP re (e_react E) ->
+     er (reg_body N (e_lsub E) tm re ext (emb SP x r) p) = emb SP (gen_EventBasedTimestampWeightedTally_register N E x (ONum tm) (p_v p)) []) /\
+  (forall (E : genv N (tsstate N)) fuel tm x r,
+     react_rel N (tsstate N) SP (fun y q => preg N fuel (e_lsub E) tm false y q) (e_react E) -> g_raised x = false ->
+     er (pinit N fuel (e_lsub E) tm (emb SP x r)) = emb SP (gen_EventBasedTimestampWeightedTally_initialize N E x) []) /\
+  (forall (E : genv N (tsstate N)) re tm ext e x r, react_rel N (tsstate N) SP re (e_react E) ->
+     er (eb_notify N KPersistent (e_lsub E) tm re ext (emb SP x r) e) = emb SP (gen_EventBasedTimestampWeightedTally_notify N E x e) []) /\
+  (forall (E : genv N (tsstate N)) f tm x r,
+     react_rel N (tsstate N) SP (fun y q => preg N f (e_lsub E) tm false y q) (e_react E) ->
+     er (pclose N (S f) (e_lsub E) tm (emb SP x r)) = emb SP (gen_EventBasedTimestampWeightedTally_end_observations N E x (ONum tm)) []) /\
+  (* class SimPersistent *)
+  (forall (E : genv N (tsstate N)) re p ts x r, react_rel N (tsstate N) SP re (e_react E) -> g_raised x = false ->
+     er (fire_all N (e_lsub E) re p (emb SP x r)) = emb SP (gen_SimPersistent__fire_events N E x ts (p_v p)) []) /\
+  (forall (E : genv N (tsstate N)) re tm ext p x r, react_rel N (tsstate N) SP re (e_react E) ->
+     er (reg_body N (e_lsub E) tm re ext (emb SP x r) p) = emb SP (gen_SimPersistent_register N E x (ONum tm) (p_v p)) []) /\
+  (forall (E : genv N (tsstate N)) fuel tm x r,
+     react_rel N (tsstate N) SP (fun y q => preg N fuel (e_lsub E) tm false y q) (e_react E) -> g_raised x = false ->
+     er (pinit N fuel (e_lsub E) tm (emb SP x r)) = emb SP (gen_SimPersistent_initialize N E x) []) /\
+  (forall (E : genv N (tsstate N)) re tm ext e x r, react_rel N (tsstate N) SP re (e_react E) ->
+     er (eb_notify N KPersistent (e_lsub E) tm re ext (emb SP x r) e) = emb SP (gen_SimPersistent_super_EventBasedTimestampWeightedTally_notify N E x e) []) /\
+  (forall (E : genv N (tsstate N)) f tm x r,
+     react_rel N (tsstate N) SP (fun y q => preg N f (e_lsub E) tm false y q) (e_react E) ->
+     er (pclose N (S f) (e_lsub E) tm (emb SP x r)) = emb SP (gen_SimPersistent_end_observations N E x (ONum tm)) []) /\
+  (forall (E : genv N (tsstate N)) f e x r,
+     react_rel N (tsstate N) SP (react N f (e_lsub E) (e_tm E)) (e_react E) -> g_raised x = false ->
+     er (snotify N KPersistent f (e_lsub E) (e_types E) (e_tm E) (emb SP x r) e) = emb SP (gen_SimPersistent_notify N E x e) []).
+Proof. exact simstats_publishing_agree. Qed.
+Print Assumptions C11_generated_publishing_is_the_proved_model.
+
+(* (c) constructors: WARMUP for all four, END_REPLICATION for the persistent,
+       the data event at the producer, registration under the key (duplicate key
+       -> DSOLError); (d) output_statistics() hands out the dictionary itself and
+       initialize empties it before construct_model                              *)
+Theorem C11_generated_construction_is_the_proved_model :
+  (forall k sid key nm sm pr et c, gen_ctor k sid key nm sm pr et c = m_ctor k sid key nm sm pr et c) /\
+  (forall k sid pr et c, gen_listen k sid pr et c = m_listen_to sid pr et c) /\
+  (forall d sm, gen_DSOLModel___init__ d sm = match sm with SimObj _ => DOk [] | NotSim => DExn CDSOLError d end) /\
+  (forall d, gen_DSOLModel_output_statistics d = DSelf) /\
+  (forall d k st, gen_DSOLModel_add_output_statistic d k st = m_add_output_statistic d k st) /\
+  (forall d k, gen_DSOLModel_get_output_statistic d k = reg_get k d) /\
+  (forall cm d, gen_Simulator_initialize__model cm d = cm []).
+Proof. exact simstats_construction_agree. Qed.
+Print Assumptions C11_generated_construction_is_the_proved_model.
+
+(* the whole log: the statistic of the model ([stat_run]) is the object the
+   generated constructors, notify, register, initialize, _fire_events and
+   end_observations produce when fed the log entry by entry *)
+Theorem C11_generated_model_is_the_proved_model :
+  forall (N : Num) chan_et cfg pl sid d log,
+    (forall a b, chan_et a = chan_et b -> a = b) ->
+    (forall c, etype_eqb (chan_et c) ETWarmup = false /\ etype_eqb (chan_et c) ETEndRepl = false) ->
+    NoDup (map d_key cfg) -> nth_error cfg sid = Some d ->
+    pst_view N (stat_run N cfg pl sid d log)
+    = match d_kind d with
+      | KCounter => gen_view N SC (gen_stat_run_SimCounter N chan_et cfg pl sid d log)
+      | KTally => gen_view N ST (gen_stat_run_SimTally N chan_et cfg pl sid d log)
+      | KWeighted => gen_view N SW (gen_stat_run_SimWeightedTally N chan_et cfg pl sid d log)
+      | KPersistent => gen_view N SP (gen_stat_run_SimPersistent N chan_et cfg pl sid d log)
+      end.
+Proof. intros N chan_et cfg pl sid d log Hi Hd Hk. exact (gen_stat_run_eq N chan_et Hi Hd cfg pl Hk sid d log). Qed.
+Print Assumptions C11_generated_model_is_the_proved_model.
+
+(* C11_simstat_filtered for the generated methods *)
+Theorem C11_generated_simstat_filtered :
+  forall (N : Num) chan_et cfg pl sid d log,
+    (forall a b, chan_et a = chan_et b -> a = b) ->
+    (forall c, etype_eqb (chan_et c) ETWarmup = false /\ etype_eqb (chan_et c) ETEndRepl = false) ->
+    NoDup (map d_key cfg) -> nth_error cfg sid = Some d -> no_reentry d ->
+    let obs := filtered N cfg pl sid log in
+    match d_kind d with
+    | KCounter => let x := gen_stat_run_SimCounter N chan_et cfg pl sid d log in
+                  g_raised x = false -> g_state x = crun cinit (map (fun tp => CReg (p_c (snd tp))) obs)
+    | KTally => let x := gen_stat_run_SimTally N chan_et cfg pl sid d log in
+                g_raised x = false -> g_state x = trun N (tinit N) (map (fun tp => TReg (p_v (snd tp))) obs)
+    | KWeighted => let x := gen_stat_run_SimWeightedTally N chan_et cfg pl sid d log in
+                   g_raised x = false ->
+                   g_state x = wrun N (winit N) (map (fun tp => WReg (p_w (snd tp)) (p_v (snd tp))) obs)
+    | KPersistent => True
+    end.
+Proof. intros N chan_et cfg pl sid d log Hi Hd Hk. exact (gen_simstat_filtered N chan_et Hi Hd cfg pl Hk sid d log). Qed.
+Print Assumptions C11_generated_simstat_filtered.
+
+(* C11_persistent_closed_at_end for the generated methods *)
+Theorem C11_generated_persistent_closed_at_end :
+  forall sq chan_et cfg pl sid d log body T t0 v0 rest,
+    let NQ := NumQ sq in
+    (forall a b, chan_et a = chan_et b -> a = b) ->
+    (forall c, etype_eqb (chan_et c) ETWarmup = false /\ etype_eqb (chan_et c) ETEndRepl = false) ->
+    NoDup (map d_key cfg) -> nth_error cfg sid = Some d -> d_kind d = KPersistent -> no_reentry d ->
+    let x := gen_stat_run_SimPersistent NQ chan_et cfg pl sid d log in
+    g_raised x = false ->
+    after_last_warm [] log = body ++ [ObsEnd T] -> only_obs body -> chrono (body ++ [ObsEnd T]) ->
+    series sq cfg pl sid body = (t0, v0) :: rest ->
+    let q := g_state x in
+    ts_active q = false
+    /\ wsw (ts_w q) == tq sq T - t0
+    /\ gw_sum NQ (ts_w q) == integ_from t0 v0 rest (tq sq T)
+    /\ (t0 < tq sq T -> res_is (gw_mean NQ (ts_w q)) (integ_from t0 v0 rest (tq sq T) / (tq sq T - t0)))
+    /\ (tq sq T == t0 -> gw_mean NQ (ts_w q) = NaNres).
+Proof.
+  intros sq chan_et cfg pl sid d log body T t0 v0 rest NQ Hi Hd Hk.
+  exact (gen_persistent_closed_at_end sq chan_et Hi Hd cfg pl Hk sid d log body T t0 v0 rest).
+Qed.
+Print Assumptions C11_generated_persistent_closed_at_end.
+
+(* C11_published_equals_getters for the generated methods: every delivery the
+   generated _fire_events / _fire_initialized made carries the getter's answer
+   on the state at that moment *)
+Theorem C11_generated_published_equals_getters :
+  forall (N : Num) chan_et cfg pl sid d log,
+    (forall a b, chan_et a = chan_et b -> a = b) ->
+    (forall c, etype_eqb (chan_et c) ETWarmup = false /\ etype_eqb (chan_et c) ETEndRepl = false) ->
+    NoDup (map d_key cfg) -> nth_error cfg sid = Some d ->
+    Forall (pub_ok N)
+      (match d_kind d with
+       | KCounter => g_tr (gen_stat_run_SimCounter N chan_et cfg pl sid d log)
+       | KTally => g_tr (gen_stat_run_SimTally N chan_et cfg pl sid d log)
+       | KWeighted => g_tr (gen_stat_run_SimWeightedTally N chan_et cfg pl sid d log)
+       | KPersistent => g_tr (gen_stat_run_SimPersistent N chan_et cfg pl sid d log)
+       end).
+Proof. intros N chan_et cfg pl sid d log Hi Hd Hk. exact (gen_published_equals_getters N chan_et Hi Hd cfg pl Hk sid d log). Qed.
+Print Assumptions C11_generated_published_equals_getters.
+
+(* what the generated constructors subscribe to: every statistic hears WARMUP,
+   exactly the persistent ones hear END_REPLICATION, the listeners of a channel
+   are the declared ones in creation order *)
+Theorem C11_generated_subscriptions :
+  forall chan_et cfg,
+    (forall a b, chan_et a = chan_et b -> a = b) -> NoDup (map d_key cfg) ->
+    let tb := res_obj (build_from chan_et gen_ctor gen_listen 0 cfg co_empty) in
+    (forall sid d, nth_error cfg sid = Some d ->
+       sub_mem ETWarmup sid (co_sim tb) = true
+       /\ sub_mem ETEndRepl sid (co_sim tb) = skind_eqb (d_kind d) KPersistent)
+    /\ (forall c, subs_of (co_prod tb) (chan_et c) = chan_subs cfg c).
+Proof. intros chan_et cfg Hi Hk. exact (gen_subscriptions chan_et Hi cfg Hk). Qed.
+Print Assumptions C11_generated_subscriptions.
+
+(* C11_registered_under_key for the generated methods: whatever the dictionary
+   held before, after initialize every declared statistic is what
+   get_output_statistic(key) returns *)
+Theorem C11_generated_registered_under_key :
+  forall chan_et cfg before, NoDup (map d_key cfg) ->
+    exists c, gen_Simulator_initialize__model (construct_model_by chan_et cfg gen_ctor gen_listen) before = COk c
+      /\ length (co_dict c) = length cfg
+      /\ forall sid d, nth_error cfg sid = Some d -> gen_DSOLModel_get_output_statistic (co_dict c) (d_key d) = Some sid.
+Proof. intros chan_et cfg before Hk. exact (gen_registered_under_key chan_et cfg Hk before). Qed.
+Print Assumptions C11_generated_registered_under_key.
+
+(* the hypotheses are satisfiable, and the example log of the non-vacuity section
+   fed through the GENERATED methods: the tally holds the two observations after
+   the warm-up marker, the persistent is closed with time average 7 *)
+Example C11_generated_example :
+  let NQ := NumQ sq_id in
+  let pl := [@mkP NQ (CInt 0) (@ONum (F NQ) 1) (@ONum (F NQ) 5); @mkP NQ (CInt 1) (@ONum (F NQ) 1) (@ONum (F NQ) 7)] in
+  let cfg := [mkDecl KTally 3 [0%nat] [2; 6]%nat []; mkDecl KPersistent 4 [0%nat] [] []] in
+  let log := [ObsV 0 1 4; ObsV 0 1 8; ObsWarm 8; ObsV 0 1 8; ObsV 0 1 12; ObsEnd 16]%Z in
+  (forall a b, ETUser a = ETUser b -> a = b)
+  /\ (forall c, etype_eqb (ETUser c) ETWarmup = false /\ etype_eqb (ETUser c) ETEndRepl = false)
+  /\ NoDup (map d_key cfg)
+  /\ tn (g_state (gen_stat_run_SimTally NQ ETUser cfg pl 0 (mkDecl KTally 3 [0%nat] [2; 6]%nat []) log)) = 2%Z
+  /\ map (fun r => pr_j r) (g_tr (gen_stat_run_SimTally NQ ETUser cfg pl 0 (mkDecl KTally 3 [0%nat] [2; 6]%nat []) log))
+     = [6; 2; 6; 2; 6; 2; 6; 2]%nat
+  /\ (let q := g_state (gen_stat_run_SimPersistent NQ ETUser cfg pl 1 (mkDecl KPersistent 4 [0%nat] [] []) log) in
+      ts_active q = false /\ res_is (gw_mean NQ (ts_w q)) 7).
+Proof.
+  cbv zeta. split; [intros a b H; injection H; auto|]. split; [intros c; split; reflexivity|].
+  split; [repeat constructor; cbn; intuition discriminate|].
+  split; [vm_compute; reflexivity|]. split; [vm_compute; reflexivity|].
+  split; [vm_compute; reflexivity|]. eexists. split; vm_compute; reflexivity.
+Qed.
